@@ -248,7 +248,8 @@ static int write_id_table(const sqfs_xattr_writer_t *xwr,
 			return err;
 
 		sqfs_meta_writer_get_position(mw, &block, &offset);
-		if (block != locations[i - 1])
+		/* a block that no further entry goes into has no location */
+		if (block != locations[i - 1] && blk->next != NULL)
 			locations[i++] = block;
 	}
 
